@@ -288,7 +288,7 @@ def g_partition(rng, alts):
     return nests, alone
 
 
-def g_nested_case(rng, kind, fault=None):
+def g_nested_case(rng, kind, fault=None, dup_pos=None):
     alts = g_alts(rng)
     c = {'kind': kind, 'util': g_util(rng, alts), 'av': g_av(rng, alts), 'choice': g_choice(rng, alts)}
     nests, alone = g_partition(rng, alts)
@@ -311,7 +311,15 @@ def g_nested_case(rng, kind, fault=None):
     elif fault == 'empty':
         c['nests'].append([g_param(rng, 'MUE'), []])
     elif fault == 'dup' and c['nests']:
-        c['nests'][0][1] = c['nests'][0][1] + [c['nests'][0][1][0]]
+        # one nest lists one of its alternatives twice; position of the repetition: first / middle / last
+        j = rng.randrange(len(c['nests']))
+        l = list(c['nests'][j][1])
+        x = rng.choice(l)
+        pos = dup_pos if dup_pos is not None else rng.choice(['first', 'middle', 'last'])
+        at = {'first': 0, 'middle': (len(l) + 1) // 2, 'last': len(l)}[pos]
+        l.insert(at, x)
+        c['nests'][j][1] = l
+        c['dup'] = {'nest': l, 'alternative': x, 'position': pos}
     elif fault == 'zero' and c['nests']:
         c['nests'][0][0] = {'n': rng.choice([0, 0.0])}
     elif fault == 'nonests':
@@ -432,8 +440,21 @@ NESTED_FAULTS = ['overlap', 'foreign', 'empty', 'dup', 'zero', 'nonests', 'small
 CNL_FAULTS = ['foreign', 'empty', 'zero', 'zeromu', 'nonests', 'smallcs']
 
 
+def gen_dup_cases(rng):
+    """refusal cases: every nested-logit builder x the position of the repeated alternative (both syntaxes)"""
+    out = []
+    for kind in NESTED_KINDS:
+        for pos in ('first', 'middle', 'last'):
+            while True:
+                c = g_nested_case(rng, kind, 'dup', dup_pos=pos)
+                if 'dup' in c and len(c['dup']['nest']) >= 3:
+                    break
+            out.append(c)
+    return out
+
+
 def gen_build_cases(rng, n):
-    cases = []
+    cases = gen_dup_cases(rng)
     for _ in range(n):
         r = rng.random()
         if r < 0.42:
@@ -464,6 +485,40 @@ def load_corpus(pid='C05'):
 
 
 # ---------------------------------------------------------------------------------- stream build
+def repeated_nest(c):
+    """a nest of a nested-logit case that lists an alternative more than once (None otherwise)"""
+    if c.get('kind') not in NESTED_KINDS:
+        return None
+    for p, alts in c.get('nests') or []:
+        if len(set(alts)) != len(alts):
+            return list(alts)
+    return None
+
+
+def refusal_failures(c, r):
+    """property oracle on the implementation: a nest that repeats an alternative must be refused with a
+    BiogemeError (its nest sum would count the alternative twice, the generating function once)"""
+    nest = repeated_nest(c)
+    if nest is None:
+        return []
+    bad = []
+    for syn in c.get('syntaxes', ['legacy', 'objects']):
+        res = r.get(syn, {})
+        if res.get('err') != 1:
+            bad.append((syn, nest, summarize(res)))
+    return bad
+
+
+def oracle_refusal(ctx, c, r):
+    for syn, nest, obs in refusal_failures(c, r):
+        fn = {'mev_nested': 'get_mev_for_nested', 'mev_nested_mu': 'get_mev_for_nested_mu',
+              'gen_nested': 'get_mev_generating_for_nested'}.get(c['kind'], c['kind'])
+        ctx.violation(f'{ctx.pid}/build/repeated-alternative-accepted/{c["kind"]}',
+                      f'{fn} accepts nest {nest} ({syn} syntax), which lists an alternative twice',
+                      {'build_case': c, 'syntax': syn}, 'BiogemeError (check_partition refuses the nest)', obs,
+                      how='PYTHONPATH=/repo/src /venv/bin/python /verif/lib/impl/c05_build.py < [build_case]')
+
+
 def nontrivial_build(c, res):
     if any('err' in r for r in res.values()):
         return c.get('fault') is not None
@@ -474,7 +529,8 @@ def stream_build(ctx, n_quick=220, n_thorough=4000):
     st = ctx.stream('build', 'generated (V incl. numeric, av incl. None / numbers / shuffled, nest structures: '
                     'partitions, alternatives alone, overlapping nests with alphas, numeric / Beta / Numeric / '
                     'expression nest parameters, mu, choice; faults: overlap, foreign alternative, empty nest, '
-                    'duplicate, zero parameter, no nest, choice set smaller/larger than the utilities) for the 19 '
+                    'alternative repeated inside a nest (first/middle/last position, all 7 nested builders, must be refused with '
+                    'BiogemeError: oracle), zero parameter, no nest, choice set smaller/larger than the utilities) for the 19 '
                     'builders; each case built in the legacy tuple syntax and with nest objects; Python tree vs '
                     'Gallina builder by expr_eqb inside Coq; distinct by case hash; non-trivial = builder succeeded '
                     'or a deliberate fault was injected')
@@ -494,6 +550,7 @@ def stream_build(ctx, n_quick=220, n_thorough=4000):
     legacy_diff = []
     for i, (c, r) in enumerate(zip(cases, results)):
         st.record({k: v for k, v in c.items()}, nontrivial=nontrivial_build(c, r))
+        oracle_refusal(ctx, c, r)
         # C06 legacy clause, on the implementation alone: both syntaxes give the same tree
         if 'legacy' in r and 'objects' in r and c.get('choice_set') == [k for k, _ in c.get('util', [])]:
             a, b = dict(r['legacy']), dict(r['objects'])
@@ -1003,6 +1060,11 @@ def search_failing_input(ctx):
 def replay_case(ctx, w):
     """re-evaluate one recorded witness {'case', 'row_index'}; returns (still_fails, details)"""
     wit = w.get('witness') or {}
+    if isinstance(wit.get('build_case'), dict):
+        bc = wit['build_case']
+        r = ctx.impl('c05_build.py', [bc])[0]
+        bad = refusal_failures(bc, r)
+        return bool(bad), [(syn, f'accepts nest {nest}') for syn, nest, _ in bad]
     c = wit.get('case')
     if not isinstance(c, dict) or 'calls' not in c:
         return None, 'this file names an obligation / a stream, not an input: re-run ./check'
